@@ -238,9 +238,11 @@ func (s *Stor) flusher() {
 }
 
 func (s *Stor) flush() {
-	chunks := s.chunks.Load().([][]byte)
 	curFlushChunk := s.curFlushChunk.Load()
 	prevFlushChunk := s.prevFlushChunk.Load()
+	// load chunks after curFlushChunk, otherwise an extend in between
+	// could make curFlushChunk refer to a chunk we don't have
+	chunks := s.chunks.Load().([][]byte)
 	for c := prevFlushChunk; c <= curFlushChunk; c++ {
 		// log.Println("flush", c)
 		s.impl.Flush(chunks[c])
